@@ -129,6 +129,44 @@ func (cx *Ctx) indexFunctions() {
 		}
 		cx.fnByKey[key] = f
 	}
+	cx.indexGenericMethods()
+}
+
+// indexGenericMethods adds methods of generic named types (not reachable through AllFunctions).
+func (cx *Ctx) indexGenericMethods() {
+	for path, sp := range cx.spkgs {
+		if !strings.HasPrefix(path, modPath) {
+			continue
+		}
+		scope := sp.Pkg.Scope()
+		for _, name := range scope.Names() {
+			tn, ok := scope.Lookup(name).(*types.TypeName)
+			if !ok {
+				continue
+			}
+			named, ok := tn.Type().(*types.Named)
+			if !ok || named.TypeParams().Len() == 0 {
+				continue
+			}
+			for i := 0; i < named.NumMethods(); i++ {
+				m := named.Method(i)
+				f := cx.prog.FuncValue(m)
+				if f == nil {
+					continue
+				}
+				key := fkey(path, f.RelString(sp.Pkg))
+				if _, ok := cx.fnByKey[key]; !ok {
+					cx.fnByKey[key] = f
+				}
+				for _, an := range f.AnonFuncs {
+					k2 := fkey(path, an.RelString(sp.Pkg))
+					if _, ok := cx.fnByKey[k2]; !ok {
+						cx.fnByKey[k2] = an
+					}
+				}
+			}
+		}
+	}
 }
 
 func (cx *Ctx) lookupFn(pkg, name string) *ssa.Function {
